@@ -13,7 +13,7 @@ func init() {
 		Title: "Pooled compressors are never shared, lost twice, or a reason to block",
 		Decided: "C13.a acquire/release typestate at the framework's own acquire sites (deferred release for local owners; the compressor field is closed, released once by the matching method and set to nil, second Close refused); " +
 			"C13.b Reset onto the target before first use of an acquired object; C13.c every channel operation in a CompressorProvider method of the module is a case of a select with default and no lock/wait is taken (acquire and release never block); " +
-			"C13.d each Acquire* hands out a channel receive, a sync.Pool.Get or a fresh object. C13.f no compress/* struct is copied by value; C13.g = C07.c (the coding recorded for Close is the constant of the codec acquired); C13.h a cache is pre-filled by a loop bounded by the capacity its channel was made with.",
+			"C13.d each Acquire* hands out a channel receive, a sync.Pool.Get or a fresh object. C13.f no compress/* struct is copied by value; C13.g = C07.c (the coding recorded for Close is the constant of the codec acquired); C13.h a cache is pre-filled by a loop bounded by the capacity its channel was made with. A closure deferred before the release defer (it runs after the release) does not read the acquired object or the place it was stored in.",
 		NotDecided:  "custom providers (user code); that concurrent responses decode to their own payload (follows from exclusivity plus compress/* contracts, not checked); sync.Pool internals.",
 		Assumptions: []string{"sync.Pool.Get/Put never block and never hand out an object twice", "select with default never blocks"},
 		Rules: []Rule{
@@ -283,6 +283,13 @@ func ruleC13aScoped(c *Ctx, inScope func(kind string) bool) {
 					"the acquired object is stored into longer-lived memory, and the deferring function is an API entry point: its return ends the operation",
 					"the acquired object is stored into memory that outlives this function ("+esc.String()+") but the deferred release fires when this unexported helper returns: its caller goes on using a released object, which the provider may already have handed to another request")
 			}
+			// deferred calls run last-in first-out: a closure deferred BEFORE the release defer runs AFTER the release.
+			// It must not touch the object: neither through a captured variable nor by reading the place the object
+			// was parked in (the request body).
+			late := lateUseAfterDeferredRelease(p, s.Fn, s.Call, d)
+			c.check(late == nil, name, construct+": nothing deferred earlier uses the object after its release", p.ipos(d),
+				"no closure deferred before the release defer reads the acquired object or the place it is stored in",
+				"a closure deferred earlier (so it runs after the deferred release) uses the object at "+p.iposOrEmpty(late)+": the framework reads from a decompressor it has already given back, which the provider may have handed to another request")
 			c.check(okAdj, name, construct+" local owner", p.ipos(s.Call),
 				"defer Release"+s.Kind+"(x) is registered directly after the acquire (runs once on every exit, including panic); no other release of x",
 				"the deferred release is not registered directly after the acquire: a return or panic in between loses the object")
@@ -780,4 +787,117 @@ func contradictoryKinds(fn *ssa.Function, a, b map[condFact]bool) bool {
 		}
 	}
 	return false
+}
+
+func (p *Program) iposOrEmpty(i ssa.Instruction) string {
+	if i == nil {
+		return ""
+	}
+	return p.ipos(i)
+}
+
+// lateUseAfterDeferredRelease: rel is `defer Release(obj)` in fn. Returns a use of obj (or of the field obj was stored
+// into) inside a closure whose defer statement can execute before rel's: that closure runs after the release.
+func lateUseAfterDeferredRelease(p *Program, fn *ssa.Function, obj ssa.Value, rel *ssa.Defer) ssa.Instruction {
+	// where the object is parked
+	parked := map[*types.Var]bool{}
+	objVals := map[ssa.Value]bool{obj: true}
+	var walk func(x ssa.Value)
+	walk = func(x ssa.Value) {
+		for _, r := range referrers(x) {
+			switch y := r.(type) {
+			case *ssa.MakeInterface:
+				if !objVals[y] {
+					objVals[y] = true
+					walk(y)
+				}
+			case *ssa.ChangeInterface:
+				if !objVals[y] {
+					objVals[y] = true
+					walk(y)
+				}
+			case *ssa.Store:
+				if y.Val == x {
+					if fa, ok := y.Addr.(*ssa.FieldAddr); ok {
+						parked[fieldOfAddr(fa)] = true
+					}
+				}
+			}
+		}
+	}
+	walk(obj)
+	var found ssa.Instruction
+	used := func(v ssa.Value) ssa.Instruction {
+		for _, r := range referrers(v) {
+			if cc := callCommon(r); cc != nil {
+				if cc.IsInvoke() && cc.Value == v {
+					return r
+				}
+				for _, a := range cc.Args {
+					if a == v {
+						return r
+					}
+				}
+			}
+			switch r.(type) {
+			case *ssa.MakeInterface, *ssa.ChangeInterface, *ssa.TypeAssert:
+				for _, r2 := range referrers(r.(ssa.Value)) {
+					if callCommon(r2) != nil {
+						return r2
+					}
+				}
+			}
+		}
+		return nil
+	}
+	eachInstr(fn, func(i ssa.Instruction) {
+		d2, ok := i.(*ssa.Defer)
+		if !ok || d2 == rel || found != nil {
+			return
+		}
+		if !canReach(d2, rel) {
+			return // registered after the release defer: runs before it
+		}
+		cl := p.funcValue(d2.Call.Value)
+		if cl == nil {
+			return // a plain deferred call: its operands were evaluated at the defer statement, before the acquire
+		}
+		for _, g := range withClosures(cl) {
+			eachInstr(g, func(j ssa.Instruction) {
+				if found != nil {
+					return
+				}
+				u, ok := j.(*ssa.UnOp)
+				if !ok || u.Op != token.MUL {
+					return
+				}
+				if fa, ok := u.X.(*ssa.FieldAddr); ok && parked[fieldOfAddr(fa)] {
+					if at := used(u); at != nil {
+						found = at
+					}
+				}
+			})
+		}
+		// the object captured by the closure
+		eachInstr(fn, func(j ssa.Instruction) {
+			mc, ok := j.(*ssa.MakeClosure)
+			if !ok || mc.Fn != ssa.Value(cl) || found != nil {
+				return
+			}
+			for k, b := range mc.Bindings {
+				hit := objVals[b]
+				if a, ok := b.(*ssa.Alloc); ok {
+					for _, st := range p.cellStores(a) {
+						if objVals[st.Val] {
+							hit = true
+						}
+					}
+				}
+				if hit && k < len(cl.FreeVars) && len(referrers(cl.FreeVars[k])) > 0 {
+					found = referrers(cl.FreeVars[k])[0]
+				}
+			}
+		})
+	})
+	return found
 }
